@@ -51,3 +51,21 @@ UNITS.append(Unit('backmp11.call_action_or_true', ['C02', 'C19'], 'backmp11',
         dict(name='row-action', pat='Row :: action_call ( sm , event , source , target , sm -> m_states )', rep='user_action ( sm , event , source , target )', min=1, max=1),
         dict(name='ghost-no-action', pat='else { return HANDLED_TRUE ; }', rep='else { NO_ACTION_STEP ( ) ; return HANDLED_TRUE ; }', min=1, max=1)]),
     defines=['NO_POLICY=1', 'HasGuardP=HasGuard'], replay=['order']))
+
+UNITS.append(Unit('backmp11.call_entry', ['C09', 'C02', 'C13'], 'backmp11',
+    Part(TT, ['struct transition_table_impl'], 'static void call_entry ( StateMachine & sm , const Event & event , Target & target )'),
+    'void call_entry_unit(fsm_t* sm, event_t event, stref_t target)', 'call_entry_mp11.spec.h',
+    xform=back_xform([], refparams=(), enums=ENUMS, drop=DROP2, throwers=['target_entry', 'target_forward_event'], exc_ret='',
+        pre_rewrites=[dict(name='TVAR-fetarget', pat='using FeTarget = typename Row :: Target ;', rep='', min=1, max=1),
+                      dict(name='TVAR-targets', pat='using targets = to_mp_list_t < FeTarget > ;', rep='', min=2, max=2),
+                      dict(name='TVAR-states', pat='using states = mp11 :: mp_transform < get_state , targets > ;', rep='', min=0, max=2),
+                      dict(name='TVAR-states2', pat='using states = mp_transform < get_state , targets > ;', rep='', min=0, max=2),
+                      dict(name='fsm-ref', pat='auto & fsm = sm . get_fsm_argument ( ) ;', rep='fsm_t * const fsm = sm ;', min=1, max=1),
+                      dict(name='SCOPE-explicit', pat='is_explicit_entry_point < FeTarget > :: value', rep='g_is_explicit', min=1, max=1),
+                      dict(name='SCOPE-entry-pseudo', pat='has_entry_pseudostate_be_tag < FeTarget > :: value', rep='g_is_entry_pseudo', min=1, max=1),
+                      dict(name='SCOPE-exit-pseudo', pat='has_exit_pseudostate_be_tag < Target > :: value', rep='g_is_exit_pseudo', min=1, max=1),
+                      dict(name='member-explicit', pat='target . template on_explicit_entry < states > ( event , fsm ) ;', rep='target_entry ( E_EXPLICIT , target , event , fsm ) ;', min=0, max=1),
+                      dict(name='member-pseudo', pat='target . template on_pseudo_entry < states > ( event , fsm ) ;', rep='target_entry ( E_PSEUDO , target , event , fsm ) ;', min=0, max=1),
+                      dict(name='member-plain', pat='target . on_entry ( event , fsm ) ;', rep='target_entry ( E_PLAIN , target , event , fsm ) ;', min=0, max=1),
+                      dict(name='member-forward', pat='target . forward_event ( * sm . m_root_sm , event ) ;', rep='target_forward_event ( target , g_root_of ( sm ) , event ) ;', min=0, max=1)]),
+    file_scope='static fsm_t* g_root_of(fsm_t* sm) { return g_root; }   /* *sm.m_root_sm: the root machine [A: set at construction] */\n', replay=['hist', 'sel']))
